@@ -288,7 +288,9 @@ def handle_refutation(prop, r, ref, res, confirmed, known, baseline, violations,
     if confirmed:
         with open(os.path.join(ROOT, path), "w") as f:
             json.dump(doc, f, indent=1, default=str)
-        violations.append(f"VIOLATION property={prop} replay={path}")
+        line = f"VIOLATION property={prop} replay={path}"
+        if line not in violations:
+            violations.append(line)
         return
     was_proved = baseline.get(ob) == "proved"
     if was_proved:
